@@ -261,7 +261,7 @@ func (r *Run) Spawn(n int, arg string, perWorkerTimeout time.Duration) {
 				fmt.Sprintf("VERIF_WORKER=%d/%d", i, n),
 				"VERIF_WORKER_OUT="+out,
 				"VERIF_WORKER_ARG="+arg,
-				"GOMAXPROCS=2",
+				"GOMAXPROCS=1",
 			)
 			cmd.Stderr = os.Stderr
 			cmd.Stdout = os.Stderr
